@@ -3,4 +3,4 @@ From Coq Require Import ExtrOcamlBasic.
 From GF Require Import Base.Lit Extract.Checks Extract.HistCheck Extract.CrashCheck Model.Handlers.
 Extraction Language OCaml.
 Extraction "model.ml" B c11_model c11_spec c17_direct_model c17_direct_spec c17_put_model c17_put_spec c17_touch_model c17_touch_spec c17_list_check
-  c09_response_ok frame_check c16_model c16_spec c12_readall_model c12_readall_spec c12_copy_model c12_copy_spec hinit hinit_fs with_model hist_step walk_check etag_of entries_walk_check crash_calls crash_state.
+  c09_response_ok frame_check c16_model c16_spec c12_readall_model c12_readall_spec c12_copy_model c12_copy_spec hinit hinit_fs with_model hist_step walk_check etag_of entries_walk_check crash_calls crash_state crash_dir_calls crash_phantoms.
